@@ -31,6 +31,10 @@ CLAIMED = {
          "Decides writer/reader agreement of the statement wire form: every Expr implementer has a Marshal case; the tag sets agree and each tag binds one Go type on both sides; leaf kinds go through the JSON encoder over exported uniquely-tagged fields; every field of every structured kind is read when marshalling and set when "
          "unmarshalling; every field of Query/MetricMetadata flows into the carrier and back through the same carrier field, not conditional on anything but itself or a decode error; the leaf executes the decoded payload and the root sends MarshalJSON; no map-ordered construction or stray clock source in the parser. "
          "The JSON library's value-level round trip and ANTLR are trusted."),
+ 'C18': ("static analysis: ownership of shard-state stores, paired-store and provenance rules (online<->alive leader, offline<->no leader), write-back path rule for map-value copies, ordering of liveness/leadership/sync, must-facts on assignment preconditions, symbolic range analysis of the follower shift",
+         "Decides the structure of the leadership invariant for every event sequence: state/leader stored only by the three handlers; online only with a leader from a successful election among live replicas or the replica node that just started; offline only with NoLeader and only when the election failed; every modified "
+         "local shard-state copy written back before the next shard; live set updated before re-election and synced after; the elector returns a tested-live replica of that shard from a non-empty list; handlers revisit exactly the led / hosted shards; assignment only after its preconditions, growth assigns only missing shards; "
+         "the follower shift is provably within [1, nodes-1]. Balance and pairwise distinctness beyond that range are arithmetic and not decided."),
  'C19': ("static analysis: exactly-once path rules (PASS), CAS-guard facts, ownership of the callback/response call sites, error-flow (latch) rule over go/ssa",
          "Decides the skeleton that exactly-once completion with error propagation rests on, for every stage tree and completion order at once: pending++ before execution and before the parent's "
          "(non-deferred) completion; exactly one of complete/error handler per stage path, the pooled task's panic handler being the error handler and the pool's recover block calling it; "
